@@ -67,6 +67,16 @@ def strip_zdir(zdir: PathLike, path: PathLike) -> str:
     return str(path).replace(f"{zdir}/", "")
 
 
+def read_text_verbatim(path: PathLike) -> str:
+    """Reads {path} without translating its line endings.
+
+    Path.read_text() turns every \\r\\n into \\n; a page that is read this way,
+    changed in one line and written back would lose its line endings everywhere.
+    """
+    with Path(path).open(newline="") as file:
+        return file.read()
+
+
 def atomic_write_text(path: PathLike, contents: str) -> None:
     """Replaces the contents of {path} without ever exposing a partial file.
 
